@@ -126,7 +126,7 @@ def _at_res(s, res, sami_seen, positional):
 
 
 def _set(multi=False, pipe=False):
-    ln = gen.lines(meta=True, pipe=pipe, markers=False).filter(
+    ln = gen.lines(meta=True, pipe=pipe, markers=False, extra=gen.LONG).filter(
         lambda s: "<html" not in s.lower() and "no closed captioning" not in s.lower())
 
     @st.composite
@@ -144,17 +144,46 @@ def _set(multi=False, pipe=False):
 
 
 def pairs_strategy(tier):
-    return _set().map(lambda s: {"set": s})
+    @st.composite
+    def build(draw):
+        s = draw(_set())
+        case = {"set": s}
+        if draw(st.integers(0, 7)) == 0:
+            # a first cue shorter than a MicroDVD frame, lying inside the second frame, whose
+            # text may be a bare number ({1}{1}25).  Such a cue has no length at MicroDVD
+            # resolution, which SAMI cannot express (a cue lasts until the next SYNC), so
+            # these sets are run through the four other formats only.
+            cues = s["langs"][0]["cues"]
+            c0 = cues[0]
+            c0["start"] = 40000 + draw(st.integers(0, 30)) * 1000
+            c0["end"] = c0["start"] + draw(st.integers(0, 9)) * 1000
+            if draw(st.booleans()):
+                txt = draw(st.sampled_from(["25", "24", "3", "23.976", "1984"]))
+                c0["nodes"], c0["lines"] = [{"t": txt}], [txt]
+            for k, c in enumerate(cues[1:]):
+                if c["start"] < 200000 * (k + 1):
+                    d = c["end"] - c["start"]
+                    c["start"] = 200000 * (k + 1) + c["start"]
+                    c["end"] = c["start"] + d
+            cues.sort(key=lambda c: c["start"])
+            for a, b in zip(cues, cues[1:]):
+                a["end"] = min(a["end"], b["start"])
+            case["short_first"] = True
+        return case
+    return build()
 
 
 def check_pairs(case, rec):
     cs0 = model.to_pycaption(case["set"])
     ref = snap(cs0)
     first = {}
-    for a in FORMATS:
+    formats = [f for f in FORMATS if not (case.get("short_first") and f == "sami")]
+    if case.get("short_first"):
+        rec.label("short-first-cue")
+    for a in formats:
         first[a] = run_chain(cs0, ref, [a], True, passes=1)
     n = len(case["set"]["langs"][0]["cues"])
-    for a, b in itertools.product(FORMATS, FORMATS):
+    for a, b in itertools.product(formats, formats):
         run_chain(cs0, ref, [a, b], True, passes=2)
     rec.nontrivial(n >= 2)
     rec.label(f"cues:{min(n, 3)}+" if n >= 3 else f"cues:{n}")
